@@ -101,6 +101,26 @@ func genC17(g *G) {
 			g.emit("secp.mul", "0", "0", hx(k)) // multiples of the identity
 		}
 	}
+	// scalars whose bit prefixes make the double-and-add accumulator hit +-P, 2P or the identity in the middle of the
+	// loop: c*n + t for small t (a prefix p with 2p = +-1, 0, 2 mod n), also followed by further random bits
+	for cmul := int64(1); cmul <= 3; cmul++ {
+		for t := int64(-4); t <= 4; t++ {
+			k0 := new(big.Int).Add(new(big.Int).Mul(big.NewInt(cmul), n), big.NewInt(t))
+			for _, extra := range []uint{0, 1, 3, 8} {
+				if !g.thorough && extra > 1 && (t+cmul)%2 != 0 {
+					continue
+				}
+				k := new(big.Int).Lsh(k0, extra)
+				if extra > 0 {
+					k.Add(k, big.NewInt(int64(g.r.intn(1<<extra))))
+				}
+				kb := append(make([]byte, g.r.intn(2)), k.Bytes()...)
+				g.emit("secp.basemul", hx(kb))
+				a := randPt()
+				g.emit("secp.mul", h(a.x), h(a.y), hx(kb))
+			}
+		}
+	}
 	for l := 0; l <= 40; l++ {
 		g.emit("secp.basemul", hx(make([]byte, l)))
 	}
